@@ -287,3 +287,14 @@ Example ex_err_shape : marshal_shape (tree_of_dom (dom_set_err (dom_of true fals
                        has_error (tree_of_dom (dom_set_err (dom_of true false ex_val) (KField 255) 1)) = true /\
                        has_error (tree_of_dom (dom_of true false ex_val)) = false.
 Proof. vm_compute. auto. Qed.
+
+(* ================================================================== (G) the probing loop from the Go source *)
+(* thrift/generic/path.go seekIntHash is translated from the Go text on every build (gen/Gen_domhash.v): the counted loop with break is a
+   structural recursion whose fuel is the iteration bound N, the slot read through rt.IndexPtr a function-valued atom (slot index ->
+   Path.t).  On a table of N existing slots it returns exactly the slot of the simulation's seek_idx (ThriftDomSim.v), for every key. *)
+From DG Require Gen_domhash GenDomhashProofs.
+Theorem C05_seekIntHash_from_source :
+  forall arr key N, 0 < N < 2 ^ 62 -> N <= Z.of_nat (length arr) -> 0 <= key < 2 ^ 64 ->
+  ThriftDomSim.seek_idx (Z.to_nat N) arr N (key mod N) = ThriftDomSim.ROk (Gen_domhash.seekIntHash (GenDomhashProofs.tbl arr) key N).
+Proof. exact GenDomhashProofs.seekIntHash_is_seek_idx. Qed.
+Print Assumptions C05_seekIntHash_from_source.
